@@ -47,6 +47,13 @@ theorem count_int_half (N : ℕ) :
 theorem count_n (N : ℕ) : ((N : ℚ).floor).toNat = N := by
   simp [ratFloor_eq]
 
+/-- `int(n)` used as a count -/
+theorem count_int_n (N : ℕ) : ((((truncQ (N : ℚ) : ℤ) : ℚ)).floor).toNat = N := by
+  have hpos : ¬ ((N : ℚ) < 0) := by
+    have : (0 : ℚ) ≤ (N : ℚ) := by positivity
+    linarith
+  simp [truncQ, hpos, ratFloor_eq]
+
 /-! ### the three general grid facts -/
 
 theorem linspace_full_noendpoint_is_true (Fs : ℚ) (N : ℕ) :
